@@ -36,3 +36,14 @@ def match(known, violation):
                 except Exception:
                     pass
     return None
+
+
+@matcher("equal_respelled_duplicate")
+def _equal_respelled_duplicate(v, m):
+    """a clause list holding two different strings that are equal as Specifier objects"""
+    import core
+    core.use_repo()
+    from packaging.specifiers import Specifier
+    cl = v["input"]["clauses"]
+    sp = [Specifier(c) for c in cl]
+    return any(cl[i].strip() != cl[j].strip() and sp[i] == sp[j] for i in range(len(cl)) for j in range(i))
